@@ -198,248 +198,271 @@ Definition opt_toks {A} (o : option A) (f : A -> res (list dtok)) : res (list dt
 Definition origin_after (c : cls) (kin : kctx) (og : origin) : origin := if k_abs kin then OFn (Some c) else og.
 
 (* ---------------- statements ---------------- *)
-Section Relabel.
-Variable rho : cls -> cls.
-
-Definition base_cls (base : query) : cls :=
+(* Written in open-recursion style: [it] / [qt] render nested items / statements; the fuel-indexed fixpoints below
+   tie the knot.  Every clause has its own definition so that the lemmas can be stated clause by clause. *)
+Definition base_cls_of (rho : cls -> cls) (base : query) : cls :=
   match base with
   | QSel c _ _ _ _ _ _ _ _ _ _ _ _ _ => rho c | QIns c _ _ _ _ _ _ => rho c | QUpd c _ _ _ _ _ _ => rho c
   | QDel c _ _ => rho c | QSet _ _ _ _ _ _ => CQuery end.
 
-Fixpoint itoks (n : nat) (k : kctx) (og : origin) (srcs : list tref) (c : ctx) (i : item) {struct n} : res (list dtok) :=
-  match n with
-  | O => Err "fuel"
-  | S n' =>
+(* GROUP BY / ORDER BY: a term whose alias is among the selected aliases is referred to by that alias *)
+Definition alias_ref (selects : list item) (y : item) : option string :=
+  match item_alias y with
+  | Some a => if truthy_ostr (Some a) && existsb (option_eqb String.eqb (Some a)) (map item_alias selects) then Some a else None
+  | None => None end.
+
+(* scope of a SELECT / UPDATE / DELETE: names of the sources and the with_namespace decision (as in Query.rquery) *)
+Definition foreign_ref (srcs scope : list tref) (wheres : option item) : bool :=
+  match wheres with
+  | Some (IT w) => existsb (fun o => match o with Some tb => negb (existsb (tref_eqb (resolve_tref srcs tb)) scope) | None => false end)
+                           (field_tables w)
+  | _ => false end.
+Definition first_is_builder (from : list source) : bool := match from with SrcQ y :: _ => is_builder y | _ => false end.
+
+Section Open.
+Variable rho : cls -> cls.
+Variable it : kctx -> origin -> list tref -> ctx -> item -> res (list dtok).
+Variable qt : kctx -> origin -> bool -> bool -> bool -> option string -> query -> res (list dtok).
+
+Definition item_toks (k : kctx) (og : origin) (srcs : list tref) (c : ctx) (i : item) : res (list dtok) :=
   match i with
   | IT t => ttoks c og (map_tref (resolve_tref srcs) t)
-  | ISub x => qtoks n' (with_c k c) og (wa c) (subq c) false (qalias x) x
+  | ISub x => qt (with_c k c) og (wa c) (subq c) false (qalias x) x
   | IIn t x neg =>
       a <- ttoks (set_subq c false) og (map_tref (resolve_tref srcs) t) ;;
-      b <- qtoks n' (with_c k (set_subq c true)) og (wa c) true false (qalias x) x ;;
+      b <- qt (with_c k (set_subq c true)) og (wa c) true false (qalias x) x ;;
       Ok (a ++ T (" " ++ (if neg then "NOT " else "") ++ "IN ") :: b)
   | IExists x neg =>
-      b <- qtoks n' (with_c k c) og (wa c) (subq c) false (qalias x) x ;;
+      b <- qt (with_c k c) og (wa c) (subq c) false (qalias x) x ;;
       Ok (T ((if neg then "NOT " else "") ++ "EXISTS ") :: b)
   | ICmp cm t x =>
-      let c' := set_wa c false in
-      a <- ttoks c' og (map_tref (resolve_tref srcs) t) ;;
-      b <- qtoks n' (with_c k c') og false (subq c) false (qalias x) x ;;
+      a <- ttoks (set_wa c false) og (map_tref (resolve_tref srcs) t) ;;
+      b <- qt (with_c k (set_wa c false)) og false (subq c) false (qalias x) x ;;
       Ok (a ++ T (cmp_text cm) :: b)
   | IFunc name args alias =>
-      let k' := fk (with_c k c) in
-      ss <- rmapM (itoks n' k' (OFn None) srcs (kc k')) args ;;
+      ss <- rmapM (it (fk (with_c k c)) (OFn None) srcs (kc (fk (with_c k c)))) args ;;
       let s := T (name ++ "(") :: tjoin "," ss ++ [T ")"] in
       Ok (if wa c then alias_toks c og (q c) s alias else s)
   | ICplx bo l r =>
       let nb (x : item) := match x with ICplx b2 _ _ => negb (bop_eqb b2 bo) | IT t => needs_brackets_x bo (top_bop t) | _ => false end in
-      a <- itoks n' k og srcs (set_subc c (nb l)) l ;; b <- itoks n' k og srcs (set_subc c (nb r)) r ;;
+      a <- it k og srcs (set_subc c (nb l)) l ;; b <- it k og srcs (set_subc c (nb r)) r ;;
       Ok (tparen (subc c) (a ++ T (" " ++ bop_text_x bo ++ " ") :: b))
-  | INot x => a <- itoks n' k og srcs (set_subc c true) x ;; Ok (T "NOT " :: a)
-  end end
+  | INot x => a <- it k og srcs (set_subc c true) x ;; Ok (T "NOT " :: a)
+  end.
 
-with qtoks (n : nat) (kin : kctx) (og0 : origin) (walias subquery pv : bool) (ali : option string) (x : query) {struct n}
+(* a FROM / JOIN item; [cx] is the context it is rendered in (with_alias and subquery set) *)
+Definition src_toks (k : kctx) (og : origin) (cx : ctx) (sn : source * option string) : res (list dtok) :=
+  match fst sn with
+  | SrcT t => Ok (table_toks cx og (src_ref (fst sn) (snd sn)))
+  | SrcQ y => qt (with_c k cx) og true true false (snd sn) y
+  | SrcA nm => Ok [(false, AId RCte None nm og)] end.
+Definition from_toks (k : kctx) (og : origin) (cx : ctx) (sn : source * option string) : res (list dtok) :=
+  match fst sn with
+  | SrcT t => Ok (table_toks cx og t)
+  | _ => src_toks k og cx sn end.
+Definition join_toks (k kk : kctx) (og : origin) (srcs : list tref) (cx_src cx_on : ctx)
+           (jn : (jhow * source * jcond) * option string) : res (list dtok) :=
+  a <- src_toks k og cx_src (snd (fst (fst jn)), snd jn) ;;
+  cn <- (match snd (fst jn) with
+         | JOn i => b <- it kk og srcs cx_on i ;; Ok (T " ON " :: b)
+         | JUsing fs => Ok (T " USING (" :: tjoin "," (map (fun f => [(false, AId RIdent (q cx_on) f og)]) fs) ++ [T ")"])
+         | JCrossCond => Ok [] end) ;;
+  Ok (T (jprefix (fst (fst (fst jn))) (snd (fst jn)) ++ "JOIN ") :: a ++ cn).
+Definition where_toks (kw : string) (kk : kctx) (og : origin) (srcs : list tref) (cx : ctx) (w : option item) : res (list dtok) :=
+  opt_toks w (fun i => a <- it kk og srcs cx i ;; Ok (T kw :: a)).
+Definition with_toks (kk : kctx) (og : origin) (withs : list (string * query)) : res (list dtok) :=
+  match withs with
+  | [] => Ok []
+  | _ => ws <- rmapM (fun ny : string * query =>
+                        a <- qt kk og false false false (qalias (snd ny)) (snd ny) ;;
+                        Ok ((false, AId RCte None (fst ny) og) :: T " AS (" :: a ++ [T ") "])) withs ;;
+         Ok (T "WITH " :: tjoin "," ws) end.
+Definition gitem_toks (kk : kctx) (og : origin) (srcs : list tref) (cx base : ctx) (gba : bool) (selects : list item) (y : item)
   : res (list dtok) :=
-  match n with
-  | O => Err "fuel"
-  | S n' =>
+  a <- (match (if gba then alias_ref selects y else None) with
+        | Some a => Ok [(false, AId RAlias (or_ostr (aq base) (q base)) a og)]
+        | None => it kk og srcs cx y end) ;;
+  Ok (mark_group a).
+Definition group_toks (kk : kctx) (og : origin) (srcs : list tref) (cx base : ctx) (gba : bool) (selects groupbys : list item)
+  : res (list dtok) :=
+  match groupbys with
+  | [] => Ok []
+  | _ => gs <- rmapM (gitem_toks kk og srcs cx base gba selects) groupbys ;; Ok (T " GROUP BY " :: tjoin "," gs) end.
+Definition oitem_toks (kk : kctx) (og : origin) (srcs : list tref) (cx base : ctx) (selects : list item) (yd : item * option order)
+  : res (list dtok) :=
+  a <- (match alias_ref selects (fst yd) with
+        | Some a => Ok [(false, AId RAlias (or_ostr (aq base) (q base)) a og)]
+        | None => it kk og srcs cx (fst yd) end) ;;
+  Ok (match snd yd with Some d' => a ++ [T (" " ++ order_text d')] | None => a end).
+Definition order_toks (kk : kctx) (og : origin) (srcs : list tref) (cx base : ctx) (selects : list item)
+           (orderbys : list (item * option order)) : res (list dtok) :=
+  match orderbys with
+  | [] => Ok []
+  | _ => os <- rmapM (oitem_toks kk og srcs cx base selects) orderbys ;; Ok (T " ORDER BY " :: tjoin "," os) end.
+
+Definition qsel_toks (kin : kctx) (og0 : origin) (walias subquery pv : bool) (ali : option string)
+           (c0 : cls) (withs : list (string * query)) (distinct : bool) (selects : list item) (from : list source)
+           (joins : list (jhow * source * jcond)) (wheres havings : option item) (groupbys : list item)
+           (orderbys : list (item * option order)) (l o : option Z) (fu : bool) : res (list dtok) :=
+  let c := rho c0 in
+  let k := defaults c kin in
+  let og := origin_after c kin og0 in
+  let fnames := fst (name_from sub_count 0 from) in
+  let jnames := fst (name_joins (base_tables from) (snd (name_from sub_count 0 from)) joins) in
+  let srcs := src_refs from fnames ++ src_refs (map (fun j => snd (fst j)) joins) jnames in
+  let wns := negb (Nat.eqb (List.length joins) 0) || Nat.ltb 1 (List.length from)
+             || first_is_builder from || foreign_ref srcs srcs wheres in
+  let base := kc k in
+  let ci (wa_ sq_ : bool) := ctx_item k wa_ sq_ wns in
+  let kk := with_c k (set_wn base wns) in
+  match selects with
+  | [] => Ok []
+  | _ =>
+    w <- with_toks kk og withs ;;
+    sel <- rmapM (it kk og srcs (ci true true)) selects ;;
+    fr <- rmapM (from_toks k og (ci true true)) (zip_names from fnames) ;;
+    js <- rmapM (join_toks k kk og srcs (ci true true) (ci false true)) (zip_names joins jnames) ;;
+    wh <- where_toks " WHERE " kk og srcs (ci false true) wheres ;;
+    gb <- group_toks kk og srcs (ci false false) base (k_gba k) selects groupbys ;;
+    hv <- where_toks " HAVING " kk og srcs (ci false false) havings ;;
+    ob <- order_toks kk og srcs (ci false false) base selects orderbys ;;
+    let body := w ++ T "SELECT " :: (if distinct then [T "DISTINCT "] else []) ++ tjoin "," sel
+                ++ (match fr with [] => [] | _ => T " FROM " :: tjoin "," fr end)
+                ++ (match js with [] => [] | _ => T " " :: tjoin " " js end)
+                ++ wh ++ gb ++ hv ++ ob ++ page_toks_v c KSelect l o ++ (if fu then [T " FOR UPDATE"] else []) in
+    Ok (if walias then falias (RQAlias c) og (vparen subquery pv body) ali (q base) (qalias_quote c) (askw base)
+        else vparen subquery pv body)
+  end.
+
+Definition qins_toks (kin : kctx) (og0 : origin) (walias subquery pv : bool) (ali : option string)
+           (c0 : cls) (into : tref) (columns : list term) (rows : list (list item)) (sel : option query) (replace : bool)
+  : res (list dtok) :=
+  let c := rho c0 in
+  let k := defaults c kin in
+  let og := origin_after c kin og0 in
+  let base := set_wn (kc k) false in
+  let kk := with_c k base in
+  let head := T (if replace then "REPLACE INTO " else "INSERT INTO ") :: table_toks base og into in
+  cols <- (match columns with
+           | [] => Ok []
+           | _ => cs <- ttoks_list base og (fold_right TCons TNil columns) ;; Ok (T " (" :: tjoin "," cs ++ [T ")"]) end) ;;
+  match rows, sel with
+  | [], None => Ok []
+  | _ :: _, _ =>
+      rs <- rmapM (fun row => vs <- rmapM (it kk og [] (set_subq (set_wa base true) true)) row ;; Ok (tjoin "," vs)) rows ;;
+      Ok (head ++ cols ++ T " VALUES (" :: tjoin "),(" rs ++ [T ")"])
+  | [], Some y =>
+      s <- qt kk og false false false (qalias y) y ;;
+      match s with
+      | [] => Ok []
+      | _ =>
+        let body := vparen subquery pv (head ++ cols ++ T " " :: s) in
+        Ok (if walias then falias (RQAlias c) og body ali (q base) (qalias_quote c) (askw base) else body)
+      end
+  end.
+
+Definition qupd_toks (kin : kctx) (og0 : origin) (c0 : cls) (tbl : tref) (sets : list (term * item)) (from : list source)
+           (joins : list (jhow * source * jcond)) (wheres : option item) (l : option Z) : res (list dtok) :=
+  let c := rho c0 in
+  let k := defaults c kin in
+  let og := origin_after c kin og0 in
+  let fnames := fst (name_from sub_count 0 from) in
+  let jnames := fst (name_joins (tbl :: base_tables from) (snd (name_from sub_count 0 from)) joins) in
+  let srcs := src_refs from fnames ++ src_refs (map (fun j => snd (fst j)) joins) jnames in
+  let wns := negb (Nat.eqb (List.length joins) 0) || Nat.ltb 1 (List.length from)
+             || first_is_builder from || foreign_ref srcs (tbl :: srcs) wheres || negb (Nat.eqb (List.length from) 0) in
+  let base := set_wn (kc k) wns in
+  let kk := with_c k base in
+  let cs := set_subq (set_wa base true) true in
+  match sets with
+  | [] => Ok []
+  | _ =>
+    js <- rmapM (join_toks k kk og srcs cs (set_subq (set_wa base false) true)) (zip_names joins jnames) ;;
+    ss <- rmapM (fun fv : term * item =>
+                   a <- ttoks (set_wn base false) og (fst fv) ;; b <- it kk og srcs base (snd fv) ;;
+                   Ok (a ++ T "=" :: b)) sets ;;
+    fr <- rmapM (from_toks k og cs) (zip_names from fnames) ;;
+    wh <- where_toks " WHERE " kk og srcs (set_subq base true) wheres ;;
+    Ok (V (if cls_is_clickhouse c then "ALTER TABLE " else "UPDATE ") :: table_toks base og tbl
+        ++ (match js with [] => [] | _ => T " " :: tjoin " " js end)
+        ++ V (if cls_is_clickhouse c then " UPDATE " else " SET ") :: tjoin "," ss
+        ++ (match fr with [] => [] | _ => T " FROM " :: tjoin "," fr end)
+        ++ wh ++ page_toks_v c KUpdate l None)
+  end.
+
+Definition qdel_toks (kin : kctx) (og0 : origin) (subquery pv : bool) (c0 : cls) (from : list source) (wheres : option item)
+  : res (list dtok) :=
+  let c := rho c0 in
+  let k := defaults c kin in
+  let og := origin_after c kin og0 in
+  let fnames := fst (name_from sub_count 0 from) in
+  let srcs := src_refs from fnames in
+  let wns := Nat.ltb 1 (List.length from) || first_is_builder from || foreign_ref srcs srcs wheres in
+  let base := set_wn (kc k) wns in
+  let kk := with_c k base in
+  fr <- rmapM (from_toks k og (set_subq (set_wa base true) true)) (zip_names from fnames) ;;
+  wh <- where_toks " WHERE " kk og srcs (set_subq base true) wheres ;;
+  let body := (if cls_is_clickhouse c
+               then V "ALTER TABLE" :: (match fr with [] => [] | _ => V " " :: tjoin "," fr ++ [V " DELETE"] end)
+               else V "DELETE" :: (match fr with [] => [] | _ => V " FROM " :: tjoin "," fr end)) ++ wh in
+  Ok (vparen subquery pv body).
+
+Definition sitem_toks (c : ctx) (og0 : origin) (selected_aliases : list (option string)) (td : term * option order)
+  : res (list dtok) :=
+  a <- (match term_alias (fst td) with
+        | Some a => if truthy_ostr (Some a) && existsb (option_eqb String.eqb (Some a)) selected_aliases
+                    then Ok [(false, AId RAliasQ (q c) a og0)]
+                    else ttoks (set_wa c false) og0 (fst td)
+        | None => ttoks (set_wa c false) og0 (fst td) end) ;;
+  Ok (match snd td with Some d' => a ++ [T (" " ++ order_text d')] | None => a end).
+
+Definition qset_toks (kin : kctx) (og0 : origin) (walias subquery pv : bool) (ali : option string)
+           (base : query) (ops : list (setop * query)) (orderbys : list (term * option order)) (l o : option Z)
+  : res (list dtok) :=
+  let bc := base_cls_of rho base in
+  let wrap := cls_wrap bc in
+  b <- qt kin og0 false wrap true (qalias base) base ;;
+  rest <- rmapM (fun sy : setop * query =>
+                   a <- qt kin og0 false wrap true (qalias (snd sy)) (snd sy) ;;
+                   (if Nat.eqb (nselects base) (nselects (snd sy))
+                    then Ok (T (" " ++ setop_text (fst sy) ++ " ") :: a)
+                    else Err "SetOperationException")) ops ;;
+  let c := kc kin in
+  let selected_aliases := match base with
+                          | QSel _ _ _ sels _ _ _ _ _ _ _ _ _ _ => map item_alias sels
+                          | _ => [] end in
+  ob <- (match orderbys with
+         | [] => Ok []
+         | _ => os <- rmapM (sitem_toks c og0 selected_aliases) orderbys ;; Ok (T " ORDER BY " :: tjoin "," os) end) ;;
+  let body := vparen subquery pv (b ++ List.concat rest ++ ob ++ page_toks_v bc KSetOp l o) in
+  Ok (if walias then falias RAlias og0 body ali (q c) (aq c) (askw c) else body).
+
+Definition query_toks (kin : kctx) (og0 : origin) (walias subquery pv : bool) (ali : option string) (x : query)
+  : res (list dtok) :=
   match x with
   | QSel c0 withs distinct selects from joins wheres havings groupbys orderbys l o fu _ =>
-      let c := rho c0 in
-      let k := defaults c kin in
-      let og := origin_after c kin og0 in
-      let (fnames, n1) := name_from sub_count 0 from in
-      let (jnames, _) := name_joins (base_tables from) n1 joins in
-      let srcs := (src_refs from fnames ++ src_refs (map (fun j => snd (fst j)) joins) jnames)%list in
-      let in_scope (tb : tref) := existsb (tref_eqb tb) srcs in
-      let foreign := match wheres with
-                     | Some (IT w) => existsb (fun o => match o with Some tb => negb (in_scope (resolve_tref srcs tb)) | None => false end)
-                                              (field_tables w)
-                     | _ => false end in
-      let wns := negb (Nat.eqb (List.length joins) 0) || Nat.ltb 1 (List.length from)
-                 || (match from with SrcQ y :: _ => is_builder y | _ => false end)
-                 || foreign in
-      let base := kc k in
-      let ci (wa_ sq_ : bool) := ctx_item k wa_ sq_ wns in
-      let kk := with_c k (set_wn base wns) in
-      let src_toks (sn : source * option string) : res (list dtok) :=
-          match fst sn with
-          | SrcT t => Ok (table_toks (ci true true) og (src_ref (fst sn) (snd sn)))
-          | SrcQ y => qtoks n' (with_c k (ci true true)) og true true false (snd sn) y
-          | SrcA nm => Ok [(false, AId RCte None nm og)] end in
-      match selects with
-      | [] => Ok []
-      | _ =>
-      w <- (match withs with
-            | [] => Ok []
-            | _ => ws <- rmapM (fun ny : string * query =>
-                                  a <- qtoks n' kk og false false false (qalias (snd ny)) (snd ny) ;;
-                                  Ok ((false, AId RCte None (fst ny) og) :: T " AS (" :: a ++ [T ") "])) withs ;;
-                   Ok (T "WITH " :: tjoin "," ws) end) ;;
-      sel <- rmapM (itoks n' kk og srcs (ci true true)) selects ;;
-      fr <- rmapM (fun sn : source * option string =>
-                     match fst sn with
-                     | SrcT t => Ok (table_toks (ci true true) og t)
-                     | _ => src_toks sn end) (zip_names from fnames) ;;
-      js <- rmapM (fun jn : (jhow * source * jcond) * option string =>
-                     let '(h, s, cnd) := fst jn in
-                     a <- src_toks (s, snd jn) ;;
-                     cn <- (match cnd with
-                            | JOn i => b <- itoks n' kk og srcs (ci false true) i ;; Ok (T " ON " :: b)
-                            | JUsing fs => Ok (T " USING (" :: tjoin "," (map (fun f => [(false, AId RIdent (q base) f og)]) fs) ++ [T ")"])
-                            | JCrossCond => Ok [] end) ;;
-                     Ok (T (jprefix h cnd ++ "JOIN ") :: a ++ cn)) (zip_names joins jnames) ;;
-      wh <- opt_toks wheres (fun i => a <- itoks n' kk og srcs (ci false true) i ;; Ok (T " WHERE " :: a)) ;;
-      let selected_aliases := map item_alias selects in
-      let alias_ref (y : item) : option string :=
-          match item_alias y with
-          | Some a => if truthy_ostr (Some a) && existsb (option_eqb String.eqb (Some a)) selected_aliases then Some a else None
-          | None => None end in
-      gb <- (match groupbys with
-             | [] => Ok []
-             | _ => gs <- rmapM (fun y =>
-                                   a <- (match (if k_gba k then alias_ref y else None) with
-                                         | Some a => Ok [(false, AId RAlias (or_ostr (aq base) (q base)) a og)]
-                                         | None => itoks n' kk og srcs (ci false false) y end) ;;
-                                   Ok (mark_group a)) groupbys ;;
-                    Ok (T " GROUP BY " :: tjoin "," gs) end) ;;
-      hv <- opt_toks havings (fun i => a <- itoks n' kk og srcs (ci false false) i ;; Ok (T " HAVING " :: a)) ;;
-      ob <- (match orderbys with
-             | [] => Ok []
-             | _ => os <- rmapM (fun yd : item * option order =>
-                                   a <- (match alias_ref (fst yd) with
-                                         | Some a => Ok [(false, AId RAlias (or_ostr (aq base) (q base)) a og)]
-                                         | None => itoks n' kk og srcs (ci false false) (fst yd) end) ;;
-                                   Ok (match snd yd with Some d' => a ++ [T (" " ++ order_text d')] | None => a end)) orderbys ;;
-                    Ok (T " ORDER BY " :: tjoin "," os) end) ;;
-      let body := w ++ T "SELECT " :: (if distinct then [T "DISTINCT "] else []) ++ tjoin "," sel
-                  ++ (match fr with [] => [] | _ => T " FROM " :: tjoin "," fr end)
-                  ++ (match js with [] => [] | _ => T " " :: tjoin " " js end)
-                  ++ wh ++ gb ++ hv ++ ob ++ page_toks_v c KSelect l o ++ (if fu then [T " FOR UPDATE"] else []) in
-      let body := vparen subquery pv body in
-      Ok (if walias then falias (RQAlias c) og body ali (q base) (qalias_quote c) (askw base) else body)
-      end
-  | QIns c0 into columns rows sel replace _ =>
-      let c := rho c0 in
-      let k := defaults c kin in
-      let og := origin_after c kin og0 in
-      let base := set_wn (kc k) false in
-      let kk := with_c k base in
-      let head := T (if replace then "REPLACE INTO " else "INSERT INTO ") :: table_toks base og into in
-      cols <- (match columns with
-               | [] => Ok []
-               | _ => cs <- ttoks_list base og (fold_right TCons TNil columns) ;; Ok (T " (" :: tjoin "," cs ++ [T ")"]) end) ;;
-      match rows, sel with
-      | [], None => Ok []
-      | _ :: _, _ =>
-          rs <- rmapM (fun row => vs <- rmapM (itoks n' kk og [] (set_subq (set_wa base true) true)) row ;; Ok (tjoin "," vs)) rows ;;
-          Ok (head ++ cols ++ T " VALUES (" :: tjoin "),(" rs ++ [T ")"])
-      | [], Some y =>
-          s <- qtoks n' kk og false false false (qalias y) y ;;
-          match s with
-          | [] => Ok []
-          | _ =>
-            let body := vparen subquery pv (head ++ cols ++ T " " :: s) in
-            Ok (if walias then falias (RQAlias c) og body ali (q base) (qalias_quote c) (askw base) else body)
-          end
-      end
-  | QUpd c0 tbl sets from joins wheres l =>
-      let c := rho c0 in
-      let k := defaults c kin in
-      let og := origin_after c kin og0 in
-      let (fnames, n1) := name_from sub_count 0 from in
-      let (jnames, _) := name_joins (tbl :: base_tables from) n1 joins in
-      let srcs := (src_refs from fnames ++ src_refs (map (fun j => snd (fst j)) joins) jnames)%list in
-      let in_scope (tb : tref) := existsb (tref_eqb tb) (tbl :: srcs) in
-      let foreign := match wheres with
-                     | Some (IT w) => existsb (fun o => match o with Some tb => negb (in_scope (resolve_tref srcs tb)) | None => false end)
-                                              (field_tables w)
-                     | _ => false end in
-      let wns := negb (Nat.eqb (List.length joins) 0) || Nat.ltb 1 (List.length from)
-                 || (match from with SrcQ y :: _ => is_builder y | _ => false end)
-                 || foreign || negb (Nat.eqb (List.length from) 0) in
-      let base := set_wn (kc k) wns in
-      let kk := with_c k base in
-      let src_toks (sn : source * option string) : res (list dtok) :=
-          match fst sn with
-          | SrcT t => Ok (table_toks base og (src_ref (fst sn) (snd sn)))
-          | SrcQ y => qtoks n' (with_c k (set_subq (set_wa base true) true)) og true true false (snd sn) y
-          | SrcA nm => Ok [(false, AId RCte None nm og)] end in
-      match sets with
-      | [] => Ok []
-      | _ =>
-      js <- rmapM (fun jn : (jhow * source * jcond) * option string =>
-                     let '(h, s, cnd) := fst jn in
-                     a <- src_toks (s, snd jn) ;;
-                     cn <- (match cnd with
-                            | JOn i => b <- itoks n' kk og srcs (set_subq (set_wa base false) true) i ;; Ok (T " ON " :: b)
-                            | JUsing fs => Ok (T " USING (" :: tjoin "," (map (fun f => [(false, AId RIdent (q base) f og)]) fs) ++ [T ")"])
-                            | JCrossCond => Ok [] end) ;;
-                     Ok (T (jprefix h cnd ++ "JOIN ") :: a ++ cn)) (zip_names joins jnames) ;;
-      ss <- rmapM (fun fv : term * item =>
-                     a <- ttoks (set_wn base false) og (fst fv) ;; b <- itoks n' kk og srcs base (snd fv) ;;
-                     Ok (a ++ T "=" :: b)) sets ;;
-      fr <- rmapM (fun sn : source * option string =>
-                     match fst sn with
-                     | SrcT t => Ok (table_toks base og t)
-                     | _ => src_toks sn end) (zip_names from fnames) ;;
-      wh <- opt_toks wheres (fun i => a <- itoks n' kk og srcs (set_subq base true) i ;; Ok (T " WHERE " :: a)) ;;
-      Ok (V (if cls_is_clickhouse c then "ALTER TABLE " else "UPDATE ") :: table_toks base og tbl
-          ++ (match js with [] => [] | _ => T " " :: tjoin " " js end)
-          ++ V (if cls_is_clickhouse c then " UPDATE " else " SET ") :: tjoin "," ss
-          ++ (match fr with [] => [] | _ => T " FROM " :: tjoin "," fr end)
-          ++ wh ++ page_toks_v c KUpdate l None)
-      end
-  | QDel c0 from wheres =>
-      let c := rho c0 in
-      let k := defaults c kin in
-      let og := origin_after c kin og0 in
-      let (fnames, _) := name_from sub_count 0 from in
-      let srcs := src_refs from fnames in
-      let in_scope (tb : tref) := existsb (tref_eqb tb) srcs in
-      let foreign := match wheres with
-                     | Some (IT w) => existsb (fun o => match o with Some tb => negb (in_scope (resolve_tref srcs tb)) | None => false end)
-                                              (field_tables w)
-                     | _ => false end in
-      let wns := Nat.ltb 1 (List.length from) || (match from with SrcQ y :: _ => is_builder y | _ => false end) || foreign in
-      let base := set_wn (kc k) wns in
-      let kk := with_c k base in
-      fr <- rmapM (fun sn : source * option string =>
-                     match fst sn with
-                     | SrcT t => Ok (table_toks base og t)
-                     | SrcQ y => qtoks n' (with_c k (set_subq (set_wa base true) true)) og true true false (snd sn) y
-                     | SrcA nm => Ok [(false, AId RCte None nm og)] end) (zip_names from fnames) ;;
-      wh <- opt_toks wheres (fun i => a <- itoks n' kk og srcs (set_subq base true) i ;; Ok (T " WHERE " :: a)) ;;
-      let body := (if cls_is_clickhouse c
-                   then V "ALTER TABLE" :: (match fr with [] => [] | _ => V " " :: tjoin "," fr ++ [V " DELETE"] end)
-                   else V "DELETE" :: (match fr with [] => [] | _ => V " FROM " :: tjoin "," fr end)) ++ wh in
-      Ok (vparen subquery pv body)
-  | QSet base ops orderbys l o _ =>
-      let bc := base_cls base in
-      let wrap := cls_wrap bc in
-      b <- qtoks n' kin og0 false wrap true (qalias base) base ;;
-      rest <- rmapM (fun sy : setop * query =>
-                       a <- qtoks n' kin og0 false wrap true (qalias (snd sy)) (snd sy) ;;
-                       (if Nat.eqb (nselects base) (nselects (snd sy))
-                        then Ok (T (" " ++ setop_text (fst sy) ++ " ") :: a)
-                        else Err "SetOperationException")) ops ;;
-      let c := kc kin in
-      let selected_aliases := match base with
-                              | QSel _ _ _ sels _ _ _ _ _ _ _ _ _ _ => map item_alias sels
-                              | _ => [] end in
-      ob <- (match orderbys with
-             | [] => Ok []
-             | _ => os <- rmapM (fun td : term * option order =>
-                                   a <- (match term_alias (fst td) with
-                                         | Some a => if truthy_ostr (Some a) && existsb (option_eqb String.eqb (Some a)) selected_aliases
-                                                     then Ok [(false, AId RAliasQ (q c) a og0)]
-                                                     else ttoks (set_wa c false) og0 (fst td)
-                                         | None => ttoks (set_wa c false) og0 (fst td) end) ;;
-                                   Ok (match snd td with Some d' => a ++ [T (" " ++ order_text d')] | None => a end)) orderbys ;;
-                    Ok (T " ORDER BY " :: tjoin "," os) end) ;;
-      let body := b ++ List.concat rest ++ ob ++ page_toks_v bc KSetOp l o in
-      let body := vparen subquery pv body in
-      Ok (if walias then falias RAlias og0 body ali (q c) (aq c) (askw c) else body)
-  end end.
+      qsel_toks kin og0 walias subquery pv ali c0 withs distinct selects from joins wheres havings groupbys orderbys l o fu
+  | QIns c0 into columns rows sel replace _ => qins_toks kin og0 walias subquery pv ali c0 into columns rows sel replace
+  | QUpd c0 tbl sets from joins wheres l => qupd_toks kin og0 c0 tbl sets from joins wheres l
+  | QDel c0 from wheres => qdel_toks kin og0 subquery pv c0 from wheres
+  | QSet base ops orderbys l o _ => qset_toks kin og0 walias subquery pv ali base ops orderbys l o
+  end.
+End Open.
+
+Section Relabel.
+Variable rho : cls -> cls.
+Definition base_cls := base_cls_of rho.
+
+Fixpoint itoks (n : nat) : kctx -> origin -> list tref -> ctx -> item -> res (list dtok) :=
+  match n with
+  | O => fun _ _ _ _ _ => Err "fuel"
+  | S n' => item_toks (itoks n') (qtoks n')
+  end
+with qtoks (n : nat) : kctx -> origin -> bool -> bool -> bool -> option string -> query -> res (list dtok) :=
+  match n with
+  | O => fun _ _ _ _ _ _ _ => Err "fuel"
+  | S n' => query_toks rho (itoks n') (qtoks n')
+  end.
 
 (* str(q), and q.get_sql with explicit keyword arguments *)
 Definition top_cls_r (x : query) : cls :=
